@@ -156,10 +156,10 @@ theorem cacheModel_meets_spec (c : CacheCase) (hwf : cacheWf c = true) :
     have hn : nodupStr ((preCache c).map (·.1)) = true := by
       simp only [cacheWf, Bool.and_eq_true] at hwf
       exact hwf.2
-    have hmem : (candidate (uniqueFilename "methods" c.modul p.1) p.2.1, scriptText p.2.2) ∈ preCache c :=
+    have hmem : (candidate (uniqueFilename c.funcName c.modul p.1) p.2.1, scriptText p.2.2) ∈ preCache c :=
       List.mem_map.2 ⟨p, hp, rfl⟩
     have hget := get_of_mem_nodup (preCache c) hn _ _ hmem
-    have hfin : (finalState c).cache.get (candidate (uniqueFilename "methods" c.modul p.1) p.2.1)
+    have hfin : (finalState c).cache.get (candidate (uniqueFilename c.funcName c.modul p.1) p.2.1)
         = some (scriptText p.2.2) := by
       rw [hs]; exact run_mono _ _ _ _ hget
     simp only [cacheModel]
@@ -171,5 +171,27 @@ theorem cacheModel_meets_spec (c : CacheCase) (hwf : cacheWf c = true) :
   · simp [cacheModel]
   · simp [cacheModel]
   · simp [cacheModel]
+
+theorem gcase_wf (c : CacheCase) (hwf : cacheWf c = true) : cacheWf (gcase c) = true := by
+  simp only [cacheWf, Bool.and_eq_true, bne_iff_ne, ne_eq, List.all_eq_true] at hwf ⊢
+  obtain ⟨⟨⟨h1, h2⟩, _⟩, _⟩ := hwf
+  refine ⟨⟨⟨h1, ?_⟩, by simp [gcase]⟩, by simp [gcase, preCache, nodupStr]⟩
+  intro d hd
+  simp only [gcase, List.mem_filterMap] at hd
+  obtain ⟨d0, hd0, hmap⟩ := hd
+  cases hg : d0.gscript with
+  | none => simp [hg] at hmap
+  | some g =>
+    simp only [hg, Option.map_some, Option.some.injEq] at hmap
+    subst hmap
+    exact h2 d0 hd0
+
+/-- both scripts of every definition: the executable model meets the specification -/
+theorem histModel_meets_spec (c : CacheCase) (hwf : cacheWf c = true) : histSpec c (histModel c) = true := by
+  have h1 := cacheModel_meets_spec c hwf
+  have h2 := cacheModel_meets_spec (gcase c) (gcase_wf c hwf)
+  have e1 : (histModel c).main = cacheModel c := rfl
+  have e2 : (histModel c).sub c = cacheModel (gcase c) := rfl
+  simp only [histSpec, e1, e2, h1, h2, Bool.and_self]
 
 end Attrs.C17
